@@ -9,7 +9,7 @@ import warnings
 import numpy as np
 
 from . import refsim, sbmlgen
-from .common import digest, WORK
+from .common import scribble, digest, WORK
 
 refsim.install()
 from . import probes  # noqa: E402
@@ -103,6 +103,7 @@ def canonical(fam, c):
 def observe(model, fam):
     """Projection of the observable behaviour of a model (public API only)."""
     F = FAMILIES[fam]
+    scribble(model, ('parameters', 'outputs', 'administration'))
     names = list(model.parameters())
     # probe vector keyed by the myokit names, which the public names map to through the rename table
     inv = {F['pren'][1]: F['pren'][0]}
